@@ -111,7 +111,7 @@ def run_one(args):
         return {'idx': idx, 'path': c.path, 'name': c.name, 'qualname': c.qualname, 'serves': c.serves,
                 'status': r.status, 'message': r.message, 'cases': r.cases, 'paths': r.paths,
                 'obligations': obs, 'inlined': [list(x) for x in r.inlined], 'time': round(time.time() - t0, 3),
-                'assumptions': c.assumptions, 'sources': src,
+                'assumptions': c.assumptions, 'sources': src, 'bounded': c.bounded_note,
                 'used_contracts': sorted(['%s:%s' % k for k in I.used_contracts]),
                 'covers': getattr(r, 'covers', None)}
     except Exception:
@@ -221,6 +221,7 @@ def main(argv=None):
     known = load_known()
     n_ob = n_dis = 0
     refuted, undecided, errors, known_hits = [], [], [], []
+    bounded_contracts = {}
     solver_time = {}
     samples = []
     fns = []
@@ -236,11 +237,21 @@ def main(argv=None):
             assumptions.add(x)
         if r['status'] == 'undecided':
             undecided.append({'function': r['name'], 'reason': r['message']})
+        is_b = bool(r.get('bounded'))
+        if is_b:
+            bstat = bounded_contracts.setdefault(r['name'], {'name': r['name'], 'kind': 'bounded', 'bound': r['bounded'],
+                                                             'obligations': 0, 'discharged': 0, 'cases': r.get('cases'), 'paths': r.get('paths')})
         for ob in r['obligations']:
-            n_ob += 1
+            if is_b:
+                bstat['obligations'] += 1
+            else:
+                n_ob += 1
             solver_time[ob['solver']] = solver_time.get(ob['solver'], 0.0) + ob['time']
             if ob['status'] == 'proved':
-                n_dis += 1
+                if is_b:
+                    bstat['discharged'] += 1
+                else:
+                    n_dis += 1
                 if len(samples) < 6 and ob['kind'] == 'post':
                     samples.append({'obligation': ob['name'], 'case': ob['case'], 'clause': (ob['info'] or {}).get('clause'),
                                     'solver': ob['solver'], 'time_s': ob['time'], 'path_condition_size': ob['pc_size']})
@@ -252,7 +263,7 @@ def main(argv=None):
                     refuted.append((r, ob))
             else:
                 undecided.append({'obligation': ob['name'], 'case': ob['case'], 'reason': (ob['info'] or {}).get('reason')})
-    bounded = []
+    bounded = list(bounded_contracts.values())
     for e in extra:
         if e.get('status') == 'error':
             errors.append(e)
@@ -331,8 +342,9 @@ def main(argv=None):
     if not a.only:
         os.makedirs(os.path.join(VERIF, 'evidence'), exist_ok=True)
         json.dump(ev, open(os.path.join(VERIF, 'evidence', pid + '.json'), 'w'), indent=1)
-    print('%s tier=%s contracts=%d obligations=%d discharged=%d refuted=%d known=%d undecided=%d wall=%.1fs exit=%d' % (
-        pid, tier, len(sel), n_ob, n_dis, len(violations), len(printed), len(undecided), wall, exit_code))
+    nb = sum(b_.get('obligations', 0) for b_ in bounded)
+    print('%s tier=%s contracts=%d obligations=%d discharged=%d bounded-obligations=%d refuted=%d known=%d undecided=%d wall=%.1fs exit=%d' % (
+        pid, tier, len(sel), n_ob, n_dis, nb, len(violations), len(printed), len(undecided), wall, exit_code))
     if a.verbose:
         for r in results:
             print('  %-60s %-9s cases=%s paths=%s obs=%d %.2fs %s' % (
